@@ -53,6 +53,8 @@ func keyClass(store, k string) string {
 				}
 			}
 			return "clients/" + w
+		case strings.HasPrefix(parts[0], "relayers"):
+			return "relayers"
 		default:
 			return parts[0]
 		}
